@@ -15,7 +15,8 @@ import irsem_py
 from vlib import OkV
 from ppci import ir
 
-EXTRA_KINDS = ('triangle', 'emptychain', 'tailself', 'blobmix', 'constjump', 'addzero')
+EXTRA_KINDS = ('triangle', 'emptychain', 'tailself', 'blobmix', 'constjump', 'addzero', 'twins', 'globcall',
+               'globwrite')
 FEATS_QUICK = irgen.SAFE_FEATURES + ('copyblob', 'extern') + EXTRA_KINDS
 
 
@@ -159,6 +160,57 @@ class FnGen2(irgen.FnGen):
             env.setdefault(t, []).append(v)
             # make sure the result is used (a store to a global or a later operand)
             env[t] = env[t][-3:] + env[t][:-3] if rng.random() < 0.3 else env[t]
+        elif kind == 'twins':
+            # two operations on the same operands in one block (same / different operator, commuted),
+            # both results observable through their combination
+            a, b = self.get(env, t), self.get(env, t)
+            ops = ['+', '-', '*', '|', '&', '^']
+            o1 = rng.choice(ops)
+            o2 = o1 if rng.random() < 0.4 else rng.choice(ops)
+            x = self.emit(ir.Binop(a, o1, b, self.nm('tw'), t))
+            if rng.random() < 0.3:
+                self.straight(env, 1)
+            y = self.emit(ir.Binop(a, o2, b, self.nm('tw'), t)) if rng.random() < 0.8 else \
+                self.emit(ir.Binop(b, o2, a, self.nm('tw'), t))
+            one = self.const(t, 1)
+            y1 = self.emit(ir.Binop(y, '+', one, self.nm('tw'), t))
+            env.setdefault(t, []).append(self.emit(ir.Binop(x, '^', y1, self.nm('twx'), t)))
+            self.observe(env, t)
+        elif kind in ('globcall', 'globwrite'):
+            gs = [g for g in self.mg.gvars if g.amount >= t.bits // 8]
+            if not gs:
+                return super().segment(env, depth)
+            g = rng.choice(gs)
+            gw = self.mg.__dict__.setdefault('gwrites', {})
+            mods = [c for c in self.mg.callables]
+            if kind == 'globcall':
+                # prefer a callee that writes a global, and store to / load from that global
+                cands = [(c, g2) for c in mods for g2 in gw.get(id(c[0]), []) if g2 in gs]
+                if cands and rng.random() < 0.8:
+                    c0, g = rng.choice(cands)
+                    mods = [c0]
+            gw.setdefault(id(self.f), [])
+            if g not in gw[id(self.f)]:
+                gw[id(self.f)].append(g)
+            self.emit(ir.Store(self.get(env, t), g))
+            if kind == 'globcall':
+                if mods:
+                    callee, argtys, ret = rng.choice(mods)
+                    args = [self.get(env, ty) for ty in argtys]
+                    if ret is None:
+                        self.emit(ir.ProcedureCall(callee, args))
+                    else:
+                        env.setdefault(ret, []).append(self.emit(ir.FunctionCall(callee, args, self.nm('r'), ret)))
+                else:
+                    self.call(env)
+                env.setdefault(t, []).append(self.emit(ir.Load(g, self.nm('gl'), t)))
+                self.observe(env, t)
+
+    def observe(self, env, t):
+        """make the newest value of type t observable: store it to a global if there is one"""
+        gs = [g for g in self.mg.gvars if g.amount >= t.bits // 8]
+        if gs and env.get(t):
+            self.emit(ir.Store(env[t][-1], self.rng.choice(gs), True))
 
 
 @contextlib.contextmanager
@@ -180,7 +232,9 @@ def gen(rng, size, feats):
         mg = irgen.ModGen(rng, size, frozenset(base) | extra, 'gen')
         m = mg.build()
     from ppci.irutils.verify import verify_module
-    verify_module(m)
+    import io
+    with contextlib.redirect_stdout(io.StringIO()):      # the verifier prints warnings about Undefined
+        verify_module(m)
     m.debug_db = DebugDb()
     return m
 
